@@ -205,6 +205,11 @@ func VH_C20_batchItem() {
 			})
 			return "x", nil
 		})
+	if vNondet[bool]("recoveringFallback") {
+		// a fallback is for exhausted budgets: a cancellation during the wait is not one
+		vCover("batch-item-with-recovering-fallback")
+		WithExecFallbackFunc(func(p any, err error) (any, error) { return 1, nil }).apply(b.CustomNode)
+	}
 	_, err := Run(m.ctx, b, NewSharedStore())
 	ctxErr := m.ctx.Err()
 	vMon(func() { c20BatchFinish(m, err, slotIsErr, slotErr, ctxErr) })
